@@ -119,6 +119,62 @@ where
     Ok(out)
 }
 
+/// `j` steps of `next()`, then `nth(k)`, then finish by fold: `nth` skips exactly min(k, remaining) items,
+/// an overshooting `nth` exhausts the iterator for every later consumer (next, len, fold).
+pub fn drive_nth<I, T>(mut it: I, total: usize, j: usize, k: usize, what: &str, conv: &dyn Fn(T) -> E3, stored: &[E3]) -> Result<(), String>
+where
+    I: Iterator<Item = T> + ExactSizeIterator,
+{
+    let mut out = Vec::new();
+    let mut r = total;
+    for _ in 0..j {
+        match it.next() {
+            Some(x) => {
+                out.push(conv(x));
+                r = r.checked_sub(1).ok_or_else(|| format!("{what}: yielded more than {total} items"))?;
+            }
+            None => break,
+        }
+    }
+    let got = it.nth(k);
+    let skipped = k.min(r);
+    if k < r {
+        match got {
+            Some(x) => out.push(conv(x)),
+            None => return Err(format!("{what}: nth({k}) returned None with {r} items remaining")),
+        }
+        r -= k + 1;
+    } else {
+        if got.is_some() {
+            return Err(format!("{what}: nth({k}) returned an item with only {r} items remaining"));
+        }
+        r = 0;
+    }
+    if it.len() != r || it.size_hint() != (r, Some(r)) {
+        return Err(format!("{what}: after {j} x next() and nth({k}): len() = {}, size_hint() = {:?}, but {r} items remain", it.len(), it.size_hint()));
+    }
+    let mut n = 0usize;
+    let rest = it.fold(Vec::new(), |mut acc, x| {
+        n += 1;
+        if n <= total + 4 {
+            acc.push(conv(x));
+        }
+        acc
+    });
+    if n != r {
+        return Err(format!("{what}: after {j} x next() and nth({k}) a fold visited {n} items but {r} remain"));
+    }
+    out.extend(rest);
+    if out.len() != total - skipped {
+        return Err(format!("{what}: {j} x next(), nth({k}), fold yielded {} items in total, expected {}", out.len(), total - skipped));
+    }
+    let so = sorted(out);
+    if so.windows(2).any(|w| w[0] == w[1]) || so.iter().any(|e| !stored.contains(e)) {
+        return Err(format!("{what}: {j} x next(), nth({k}), fold yielded {:?} which is not a duplicate-free selection of {:?}", so, stored));
+    }
+    Ok(())
+}
+
 fn expect(what: &str, got: Vec<E3>, want: &[E3]) -> Result<(), String> {
     let got = sorted(got);
     if got != want {
@@ -186,6 +242,34 @@ pub fn probe_iterators<K: KeyT, V: ValT>(rebuild: &dyn Fn() -> MapSut<K, V>, sut
                 return Err("values().clone() does not continue from the same position".into());
             }
             count += 3;
+        }
+        // nth(k): within range, exactly to the end, and overshooting
+        if j <= n {
+            let r = n - j;
+            let mut ks = vec![0usize, 1, r.saturating_sub(1), r, r + 1, r + 17];
+            ks.sort_unstable();
+            ks.dedup();
+            for &k in &ks {
+                drive_nth(sut.map.iter(), n, j, k, "iter()", &kv, &full)?;
+                drive_nth(sut.map.keys(), n, j, k, "keys()", &ko, &keys)?;
+                drive_nth(sut.map.values(), n, j, k, "values()", &vo, &vals)?;
+                drive_nth(sut.map.iter_mut(), n, j, k, "iter_mut()", &kvm, &full)?;
+                drive_nth(sut.map.values_mut(), n, j, k, "values_mut()", &vm, &vals)?;
+                count += 5;
+            }
+            for &k in &[0usize, r, r + 1] {
+                let kvo = |(k, v): (K, V)| (k.id(), k.tok(), v.tok());
+                let mut s = rebuild();
+                let m = std::mem::take(&mut s.map);
+                drive_nth(m.into_iter(), n, j, k, "into_iter()", &kvo, &full)?;
+                s.finish().map_err(|m| format!("after into_iter() with nth: {m}"))?;
+                let mut s = rebuild();
+                drive_nth(s.map.drain(), n, j, k, "drain()", &kvo, &full)?;
+                s.model.clear();
+                s.check_all(sut.probe_keys.len() as u8, true, true).map_err(|m| format!("after drain() with nth: {m}"))?;
+                s.finish().map_err(|m| format!("after drain() with nth: {m}"))?;
+                count += 2;
+            }
         }
         // rustc_iter(): a read-only view of what IterMut / IntoIter / Drain have not yielded yet
         if j <= n {
@@ -398,10 +482,22 @@ pub fn probe_removal<K: KeyT, V: ValT>(
                     v.set_tok(v.tok() ^ 0x2000_0000);
                     in_set(mask, k.id())
                 });
-                for _ in 0..cut {
+                for step in 0..cut {
+                    let (lo, hi) = it.size_hint();
+                    let left = extracted_total - step;
+                    if lo > left || hi.map_or(false, |h| h < left) {
+                        return Err(format!("extract_if: size_hint() = {:?} but exactly {left} more elements are yielded", (lo, hi)));
+                    }
                     match it.next() {
                         Some((k, v)) => yielded.push((k.id(), k.tok(), v.tok())),
                         None => return Err("extract_if: ended before yielding every selected element".into()),
+                    }
+                }
+                {
+                    let (lo, hi) = it.size_hint();
+                    let left = extracted_total - cut;
+                    if lo > left || hi.map_or(false, |h| h < left) {
+                        return Err(format!("extract_if: size_hint() = {:?} after {cut} items but exactly {left} more elements are yielded", (lo, hi)));
                     }
                 }
                 if fin == 1 {
@@ -730,6 +826,42 @@ pub fn probe_constructors<K: KeyT, V: ValT>() -> Result<u64, String> {
             return Err("with_capacity_in constructors leaked".into());
         }
         count += 11;
+    }
+    {
+        // zero-sized element types: a HashTable can hold any number of them, so the capacity contract applies unchanged
+        use hashbrown::{HashMap, HashSet, HashTable};
+        #[derive(Clone, Copy, PartialEq, Eq, Hash)]
+        struct Unit;
+        for n in (0usize..=64).chain([100, 448, 449, 1000, 3584, 3585, 4096]) {
+            let t1: HashTable<(), CheckAlloc> = HashTable::with_capacity_in(n, CheckAlloc);
+            let t2: HashTable<Unit, CheckAlloc> = HashTable::with_capacity_in(n, CheckAlloc);
+            let t3: HashTable<[u64; 0], CheckAlloc> = HashTable::with_capacity_in(n, CheckAlloc);
+            let m1: HashMap<(), (), PlanBuild, CheckAlloc> = HashMap::with_capacity_and_hasher_in(n, PlanBuild::default(), CheckAlloc);
+            let s1: HashSet<Unit, PlanBuild, CheckAlloc> = HashSet::with_capacity_and_hasher_in(n, PlanBuild::default(), CheckAlloc);
+            let caps = [t1.capacity(), t2.capacity(), t3.capacity(), m1.capacity(), s1.capacity()];
+            if caps.iter().any(|&c| c < n) {
+                return Err(format!("with_capacity({n}) for zero-sized element types reports capacities {:?}", caps));
+            }
+            // parity with new() + reserve(n), and the reserved room is real
+            let mut r1: HashTable<(), CheckAlloc> = HashTable::new_in(CheckAlloc);
+            r1.reserve(n, |_| 0);
+            if r1.capacity() != t1.capacity() || r1.allocation_size() != t1.allocation_size() {
+                return Err(format!("HashTable<()>: with_capacity({n}) gives capacity {} / {} bytes, new() + reserve({n}) gives {} / {}", t1.capacity(), t1.allocation_size(), r1.capacity(), r1.allocation_size()));
+            }
+            let mut t1 = t1;
+            let (a0, _) = env::alloc_calls();
+            for _ in 0..n {
+                t1.insert_unique(0, (), |_| 0);
+            }
+            let (a1, _) = env::alloc_calls();
+            if a1 != a0 || t1.len() != n {
+                return Err(format!("HashTable<()>::with_capacity({n}): inserting {n} entries called the allocator {} times", a1 - a0));
+            }
+            count += 1;
+        }
+        if env::live_bytes() != 0 {
+            return Err("zero-sized with_capacity constructors leaked".into());
+        }
     }
     for m in [&m1, &m2, &m3] {
         if m.capacity() != 0 || m.allocation_size() != 0 || m.len() != 0 {
